@@ -63,8 +63,10 @@ SHAPES = {
 
 # root names: several dots, hidden, blank inside, a name ending in ".torrent", non-ASCII
 # (a colon as second character: what drive-letter handling "for portability" would take for a drive; two dots inside)
-FILE_NAMES = ["single.bin", "archive.tar.gz", ".bashrc", "3:10 noext", "ünï cödé.bin", "x.torrent"]
-DIR_NAMES = [None, "rel.v1.0", ".hidden-root", "3:10 to Yuma", "t.torrent", "ünï-rööt.. vol"]
+# (the non-ASCII root names are DECOMPOSED - not NFC - as macOS hands them out: whatever compares or rebuilds names has to
+# use them as they are)
+FILE_NAMES = ["single.bin", "archive.tar.gz", ".bashrc", "3:10 noext", "u\u0308ni\u0308 co\u0308de\u0301.bin", "x.torrent"]
+DIR_NAMES = [None, "rel.v1.0", ".hidden-root", "3:10 to Yuma", "t.torrent", "u\u0308ni\u0308-ro\u0308o\u0308t.. vol"]
 
 
 def mk_tree(shape, sizes, name=None, modes=None, nv=0):
